@@ -341,6 +341,30 @@ theorem drag_keeps_button (cfg : Cfg) (st : PState) (hst : st.buttondn = true) (
   simp only [show ((77 : Nat) = 109) = False from by simp, decide_false, e1, bits]
   exact this
 
+/-- a wheel-left / wheel-right report (xterm codes 66/67 with any modifier bits, in any press state) is never reported
+as wheel-up, wheel-down or a primary/middle/secondary button: the event carries no button at all -/
+theorem hwheel_not_a_button (cfg : Cfg) (st : PState) (b x y : Int) (hw : hwheel (bits b) = true) :
+    buttonsOf (sgrEvent cfg st b x y 77) = 0 ∧ ∀ m ∈ forbidden (bits b), buttonsOf (sgrEvent cfg st b x y 77) ≠ m := by
+  have hall : ∀ dn : Bool, ∀ c8 : Nat, c8 < 256 → hwheel c8 = true →
+      (evBtnMods (buildMouseEvent cfg0 0 0 ((sgrButtons { buttondn := dn } (c8 : Int) false).1 : Int))).1 = 0 := by
+    decide +kernel
+  have e1 : sgrButtons st b false = sgrButtons { buttondn := st.buttondn } (((b % 256).toNat : Nat) : Int) false :=
+    sgrButtons_congr _ _ _ _ _ (by omega) rfl
+  have h0 : buttonsOf (sgrEvent cfg st b x y 77) = 0 := by
+    have := hall st.buttondn (b % 256).toNat (by omega) (by simpa [bits] using hw)
+    rw [buttonsOf_sgrEvent]
+    simp only [show ((77 : Nat) = 109) = False from by simp, decide_false, e1]
+    exact this
+  refine ⟨h0, ?_⟩
+  intro m hm
+  rw [h0]
+  simp only [forbidden, hw, if_true] at hm
+  simp [button1, button2, button3, wheelUp, wheelDown] at hm
+  omega
+
+example : hwheel (bits 66) = true ∧ hwheel (bits (67 + 16)) = true ∧ hwheel (bits 64) = false ∧ hwheel (bits 2) = false := by decide
+example : buttonsOf (sgrEvent exCfg {} 66 10 5 77) = 0 := by decide
+
 theorem outs_append (cfg : Cfg) : ∀ (rs ss : List MRep) (st : PState),
     outs cfg st (rs ++ ss) = ((outs cfg st rs).1 ++ (outs cfg (outs cfg st rs).2 ss).1, (outs cfg (outs cfg st rs).2 ss).2) := by
   intro rs
